@@ -155,6 +155,14 @@ impl MetadataClient for GatedMeta {
             self.inner.complete_compaction(source_chunks, target_chunk)
         )
     }
+    async fn complete_compaction_with_target(&self, source_chunks: &[String], target: &ChunkMetadata) -> Result<()> {
+        gated!(
+            self,
+            "complete_compaction_with_target",
+            format!("{}->{}", source_chunks.join(","), target.path),
+            self.inner.complete_compaction_with_target(source_chunks, target)
+        )
+    }
     async fn update_compaction_status(&self, job_id: &str, status: CompactionStatus) -> Result<()> {
         gated!(self, "update_compaction_status", format!("{status:?}"), self.inner.update_compaction_status(job_id, status))
     }
@@ -201,7 +209,7 @@ impl MetadataClient for GatedMeta {
         )
     }
     async fn acquire_lease(&self, node_id: &str, chunks: &[String], level: u32) -> Result<CompactionLease> {
-        gated!(self, "acquire_lease", format!("{node_id},{}", chunks.len()), self.inner.acquire_lease(node_id, chunks, level))
+        gated!(self, "acquire_lease", format!("{node_id}|{level}|{}", chunks.join(",")), self.inner.acquire_lease(node_id, chunks, level))
     }
     async fn complete_lease(&self, lease_id: &str) -> Result<()> {
         gated!(self, "complete_lease", String::new(), self.inner.complete_lease(lease_id))
